@@ -144,6 +144,17 @@ CLAIMED.update({
                      "fault sequences and other bases are sampled."),
 })
 
+CLAIMED.update({
+    "C11": dict(cat="exploration", ref="DESIGN.md 3 (C11)",
+                technique="deterministic simulation of load/save histories: one client cycling x -> read -> write -> read -> write ... "
+                          "(k = 2..5) against the simulated file system, output/input channel, codec, newline and delivery policy "
+                          "varying per cycle; canon equality between consecutive re-reads",
+                text="Example corpus (as stored bytes), generated documents and textual mutations of both (duplicated/blank "
+                     "mnemonics, odd units, emptied values, long fields) x writer option sets: from the first re-read on, the "
+                     "content must not change any more. Inputs lasio cannot read or write once are skipped by definition; LAS 3.0 "
+                     "inputs and quoted text cells are known findings."),
+})
+
 NOT_APPLICABLE = {
     "C04": "read_header_line is a pure function of one already-delivered line (regex cascade): no stream position, "
            "history, fault or interleaving can influence it, so deterministic simulation adds nothing (DESIGN.md 4)",
